@@ -17,5 +17,6 @@ CONSTANTS
   UseWindow = TRUE
   UseReopen = TRUE
   UseEpochs = TRUE
+  OccSet = {FALSE, TRUE}
   UseReaders = FALSE
 CHECK_DEADLOCK FALSE
